@@ -61,11 +61,19 @@ def _leaves(e, fn, depth=0):
 
 def sanitise_block(chk, repo, folder, fn, rule, what):
     """Every non-literal component of the header block built by fn passes _safe_header."""
-    encs = [c for c, _b in K.exprs(fn, "$S.encode($E)") if isinstance(K.stmt_of(c), (ast.Return, ast.Assign))]
+    encs = [c for c, _b in K.exprs(fn, "$S.encode(...)") if isinstance(K.stmt_of(c), (ast.Return, ast.Assign))]
     if not encs:
         raise AnalysisError(f"{rule}: header block `.encode()` not found in {fn.where}")
     n = 0
     for c in encs:
+        # the codec cannot turn a character that passed the check into a control byte: an ASCII-compatible encoding, and an error handler
+        # that yields bytes >= 0x80 only (surrogateescape: U+DC80..U+DCFF, the obs-text bytes the parsers decoded) or none at all
+        enc_ = c.args[0].value if c.args and isinstance(c.args[0], ast.Constant) else next((k.value.value for k in c.keywords if k.arg == "encoding" and isinstance(k.value, ast.Constant)), "utf-8" if not c.args else None)
+        err_ = c.args[1].value if len(c.args) > 1 and isinstance(c.args[1], ast.Constant) else next((k.value.value for k in c.keywords if k.arg == "errors" and isinstance(k.value, ast.Constant)), "strict" if len(c.args) < 2 else None)
+        if str(enc_).lower().replace("_", "-") in ("utf-8", "utf8", "ascii", "latin-1", "latin1", "iso-8859-1") and err_ in ("strict", "surrogateescape"):
+            chk.ok(rule, c, f"{what}: the block is encoded with {enc_}/{err_} (no character that passed the check can become CR, LF or NUL)")
+        else:
+            chk.violation(rule, c, K.short(c, 60), ".encode('utf-8') / .encode('utf-8', 'surrogateescape')", f"{what}: the header block is encoded with {enc_!r}/{err_!r}: the control-character check is made on the text, this codec / error handler can produce bytes it has not seen")
         for node, safe in _leaves(c, fn):
             n += 1
             if safe:
